@@ -4,7 +4,7 @@
    slate-Bradley-Terry path.  Statements are collected in Properties/C14_gen2.v. *)
 From VK Require Import Base Core GenValidation PrefInterval Generators Generators2.
 From VK.Spec Require Import Content GenSpec Gen2Spec BTSpec ApportionSpec.
-From VK.Proofs Require Import Lib_rk Lib_sets C11_profile C12_expand C15_interval C15_bt C15_slate
+From VK.Proofs Require Import Lib_rk Lib_sets Dist C11_profile C12_expand C15_interval C15_bt C15_slate
   C14_wf C14_kernels C14_types C14_sizes.
 From Coq Require Import Permutation Lia Lqa Setoid Morphisms.
 
@@ -267,4 +267,869 @@ Proof.
   rewrite E. cbn [negb]. unfold ok. cbn [rbind].
   destruct (pool_to_profile_errors draws cands) as (_ & _ & H3).
   destruct (H3 Hnd) as [q Hq]. rewrite Hq. cbn [rbind snd]. exists q. reflexivity.
+Qed.
+
+(* ------------------------------------------------------------------ *)
+(** * 2. CambridgeSampler: filling a historical type *)
+
+Lemma count_bloc_cons_eqb : forall own b t,
+  count_bloc own (b :: t) = ((if Pos.eqb b own then 1 else 0) + count_bloc own t)%nat.
+Proof.
+  intros own b t. unfold count_bloc. cbn [filter]. rewrite (Pos.eqb_sym own b).
+  destruct (Pos.eqb b own); reflexivity.
+Qed.
+
+Lemma count_other_cons : forall own b t,
+  count_other own (b :: t) = ((if Pos.eqb b own then 0 else 1) + count_other own t)%nat.
+Proof. intros own b t. unfold count_other. cbn [filter]. destruct (Pos.eqb b own); reflexivity. Qed.
+
+Lemma count_bloc_other_length : forall own t, (count_bloc own t + count_other own t = length t)%nat.
+Proof.
+  intros own t. induction t as [|b t IH]; [reflexivity|].
+  rewrite count_bloc_cons_eqb, count_other_cons. cbn [length]. destruct (Pos.eqb b own); lia.
+Qed.
+
+Lemma firstn_nil_any : forall (A : Type) n, firstn n (@nil A) = [].
+Proof. intros A n. destruct n; reflexivity. Qed.
+
+Theorem cam_fill_length : forall own t ob oo,
+  length (cam_fill own t ob oo) =
+  (Nat.min (count_bloc own t) (length ob) + Nat.min (count_other own t) (length oo))%nat.
+Proof.
+  intros own. induction t as [|b t IH]; intros ob oo; [reflexivity|].
+  cbn [cam_fill]. rewrite count_bloc_cons_eqb, count_other_cons.
+  destruct (Pos.eqb b own).
+  - destruct ob as [|c ob]; [rewrite IH; cbn [length]; lia|].
+    cbn [length]. rewrite IH. lia.
+  - destruct oo as [|c oo]; [rewrite IH; cbn [length]; lia|].
+    cbn [length]. rewrite IH. lia.
+Qed.
+
+Theorem cam_kept_counts : forall own t na no,
+  count_bloc own (cam_kept own t na no) = Nat.min (count_bloc own t) na /\
+  count_other own (cam_kept own t na no) = Nat.min (count_other own t) no.
+Proof.
+  intros own. induction t as [|b t IH]; intros na no; [split; reflexivity|].
+  cbn [cam_kept]. rewrite (count_bloc_cons_eqb own b t), (count_other_cons own b t).
+  destruct (Pos.eqb b own) eqn:E.
+  - destruct na as [|na].
+    + destruct (IH O no) as [I1 I2]. rewrite I1, I2. split; lia.
+    + rewrite count_bloc_cons_eqb, count_other_cons, E. destruct (IH na no) as [I1 I2].
+      rewrite I1, I2. split; lia.
+  - destruct no as [|no].
+    + destruct (IH na O) as [I1 I2]. rewrite I1, I2. split; lia.
+    + rewrite count_bloc_cons_eqb, count_other_cons, E. destruct (IH na no) as [I1 I2].
+      rewrite I1, I2. split; lia.
+Qed.
+
+Theorem cam_kept_length : forall own t na no,
+  length (cam_kept own t na no) =
+  (Nat.min (count_bloc own t) na + Nat.min (count_other own t) no)%nat.
+Proof.
+  intros own t na no. rewrite <- (count_bloc_other_length own (cam_kept own t na no)).
+  destruct (cam_kept_counts own t na no) as [-> ->]. reflexivity.
+Qed.
+
+(* nothing is skipped when both slates have enough candidates *)
+Theorem cam_kept_all : forall own t na no,
+  (count_bloc own t <= na)%nat -> (count_other own t <= no)%nat -> cam_kept own t na no = t.
+Proof.
+  intros own. induction t as [|b t IH]; intros na no H1 H2; [reflexivity|].
+  cbn [cam_kept]. rewrite count_bloc_cons_eqb in H1. rewrite count_other_cons in H2.
+  destruct (Pos.eqb b own).
+  - destruct na as [|na]; [lia|]. rewrite IH; [reflexivity|lia|lia].
+  - destruct no as [|no]; [lia|]. rewrite IH; [reflexivity|lia|lia].
+Qed.
+
+(* the recursive and the direct description of the served slots agree *)
+Lemma firstn_length_app : forall (A : Type) (p l : list A), firstn (length p) (p ++ l) = p.
+Proof.
+  intros A p l. induction p as [|a p IH]; cbn [length app firstn]; [destruct l; reflexivity|].
+  rewrite IH. reflexivity.
+Qed.
+
+Lemma count_bloc_snoc : forall own p b,
+  count_bloc own (p ++ [b]) = (count_bloc own p + (if Pos.eqb b own then 1 else 0))%nat.
+Proof.
+  intros own p b. rewrite count_bloc_app, count_bloc_cons_eqb. cbn. lia.
+Qed.
+
+Lemma count_other_snoc : forall own p b,
+  count_other own (p ++ [b]) = (count_other own p + (if Pos.eqb b own then 0 else 1))%nat.
+Proof.
+  intros own p b. unfold count_other. rewrite filter_app, app_length. cbn [filter].
+  destruct (Pos.eqb b own); cbn; reflexivity.
+Qed.
+
+Lemma cam_kept_direct_gen : forall own na no t p,
+  map snd (filter (fun ib : nat * bloc => cam_served own (p ++ t) na no (fst ib) (snd ib))
+                  (combine (seq (length p) (length t)) t))
+  = cam_kept own t (na - count_bloc own p) (no - count_other own p).
+Proof.
+  intros own na no. induction t as [|b t IH]; intros p; [reflexivity|].
+  cbn [length seq combine filter fst snd].
+  assert (Hrest : map snd (filter (fun ib : nat * bloc => cam_served own (p ++ b :: t) na no (fst ib) (snd ib))
+                     (combine (seq (S (length p)) (length t)) t))
+                  = cam_kept own t (na - count_bloc own (p ++ [b])) (no - count_other own (p ++ [b]))).
+  { rewrite <- (IH (p ++ [b])). rewrite app_length. cbn [length].
+    replace (length p + 1)%nat with (S (length p)) by lia.
+    rewrite <- app_assoc. reflexivity. }
+  unfold cam_served at 1. rewrite firstn_length_app. cbn [cam_kept].
+  rewrite count_bloc_snoc, count_other_snoc in Hrest.
+  destruct (Pos.eqb b own) eqn:E.
+  - destruct (Nat.ltb_spec (count_bloc own p) na) as [Hlt|Hge].
+    + destruct (na - count_bloc own p)%nat as [|m] eqn:Em; [lia|].
+      cbn [map snd]. rewrite Hrest. f_equal. f_equal; lia.
+    + replace (na - count_bloc own p)%nat with O by lia. rewrite Hrest. f_equal; lia.
+  - destruct (Nat.ltb_spec (count_other own p) no) as [Hlt|Hge].
+    + destruct (no - count_other own p)%nat as [|m] eqn:Em; [lia|].
+      cbn [map snd]. rewrite Hrest. f_equal. f_equal; lia.
+    + replace (no - count_other own p)%nat with O by lia. rewrite Hrest. f_equal; lia.
+Qed.
+
+Theorem cam_kept_direct_eq : forall own t na no, cam_kept own t na no = cam_kept_direct own t na no.
+Proof.
+  intros own t na no. unfold cam_kept_direct.
+  pose proof (cam_kept_direct_gen own na no t []) as H. cbn [app length] in H. rewrite H.
+  unfold count_bloc, count_other. cbn [filter length]. rewrite !Nat.sub_0_r. reflexivity.
+Qed.
+
+(* the filled ballot follows the served slots *)
+Lemma other_slots_cons : forall own b0 t c r,
+  other_slots own (b0 :: t) (c :: r) =
+  if Pos.eqb own b0 then other_slots own t r else c :: other_slots own t r.
+Proof.
+  intros own b0 t c r. unfold other_slots. cbn [combine filter fst]. destruct (Pos.eqb own b0); reflexivity.
+Qed.
+
+Theorem cam_fill_slots : forall own t ob oo,
+  let r := cam_fill own t ob oo in
+  let k := cam_kept own t (length ob) (length oo) in
+  length r = length k /\
+  slots own k r = firstn (count_bloc own t) ob /\
+  other_slots own k r = firstn (count_other own t) oo.
+Proof.
+  intros own. induction t as [|b t IH]; intros ob oo; cbv zeta.
+  - cbn [cam_fill cam_kept]. unfold slots, other_slots. cbn. split; [reflexivity|]. split; reflexivity.
+  - cbn [cam_fill cam_kept]. rewrite count_bloc_cons_eqb, count_other_cons.
+    destruct (Pos.eqb b own) eqn:E.
+    + destruct ob as [|c ob].
+      * cbn [length]. destruct (IH [] oo) as (I1 & I2 & I3). cbv zeta in I1, I2, I3. cbn [length] in I1, I2, I3.
+        split; [exact I1|]. split; [rewrite I2, !firstn_nil_any; reflexivity|exact I3].
+      * cbn [length]. destruct (IH ob oo) as (I1 & I2 & I3). cbv zeta in I1, I2, I3.
+        split; [rewrite I1; reflexivity|]. rewrite slots_cons, other_slots_cons, (Pos.eqb_sym own b), E.
+        split; [cbn [Nat.add firstn]; rewrite I2; reflexivity|exact I3].
+    + destruct oo as [|c oo].
+      * cbn [length]. destruct (IH ob []) as (I1 & I2 & I3). cbv zeta in I1, I2, I3. cbn [length] in I1, I2, I3.
+        split; [exact I1|]. split; [exact I2|rewrite I3, !firstn_nil_any; reflexivity].
+      * cbn [length]. destruct (IH ob oo) as (I1 & I2 & I3). cbv zeta in I1, I2, I3.
+        split; [rewrite I1; reflexivity|]. rewrite slots_cons, other_slots_cons, (Pos.eqb_sym own b), E.
+        split; [exact I2|cbn [Nat.add firstn]; rewrite I3; reflexivity].
+Qed.
+
+(* position by position: a served own-label slot carries an own-slate candidate, any other served
+   slot an opposing-slate candidate *)
+Theorem cam_fill_positions : forall own t ob oo i b,
+  nth_error (cam_kept own t (length ob) (length oo)) i = Some b ->
+  exists c, nth_error (cam_fill own t ob oo) i = Some c /\
+            (if Pos.eqb b own then In c ob else In c oo).
+Proof.
+  intros own. induction t as [|b0 t IH]; intros ob oo i b H.
+  - destruct i; discriminate.
+  - cbn [cam_kept cam_fill] in *. destruct (Pos.eqb b0 own) eqn:E.
+    + destruct ob as [|c ob]; cbn [length] in H.
+      * destruct (IH [] oo i b H) as (c & Hc & Hin). exists c. split; [exact Hc|exact Hin].
+      * destruct i as [|i]; cbn [nth_error] in H |- *.
+        -- injection H as <-. exists c. rewrite E. split; [reflexivity|left; reflexivity].
+        -- destruct (IH ob oo i b H) as (c' & Hc & Hin). exists c'. split; [exact Hc|].
+           destruct (Pos.eqb b own); [right; exact Hin|exact Hin].
+    + destruct oo as [|c oo]; cbn [length] in H.
+      * destruct (IH ob [] i b H) as (c & Hc & Hin). exists c. split; [exact Hc|exact Hin].
+      * destruct i as [|i]; cbn [nth_error] in H |- *.
+        -- injection H as <-. exists c. rewrite E. split; [reflexivity|left; reflexivity].
+        -- destruct (IH ob oo i b H) as (c' & Hc & Hin). exists c'. split; [exact Hc|].
+           destruct (Pos.eqb b own); [exact Hin|right; exact Hin].
+Qed.
+
+(* the ballot is an interleaving of a prefix of each order *)
+Theorem cam_fill_perm : forall own t ob oo,
+  Permutation (cam_fill own t ob oo)
+              (firstn (count_bloc own t) ob ++ firstn (count_other own t) oo).
+Proof.
+  intros own. induction t as [|b t IH]; intros ob oo.
+  - cbn. constructor.
+  - cbn [cam_fill]. rewrite count_bloc_cons_eqb, count_other_cons. destruct (Pos.eqb b own).
+    + destruct ob as [|c ob].
+      * rewrite firstn_nil_any. specialize (IH [] oo). rewrite firstn_nil_any in IH. exact IH.
+      * cbn [Nat.add firstn app]. apply perm_skip. apply IH.
+    + destruct oo as [|c oo].
+      * rewrite firstn_nil_any. specialize (IH ob []). rewrite firstn_nil_any in IH. exact IH.
+      * cbn [Nat.add firstn]. apply Permutation_cons_app. apply IH.
+Qed.
+
+(* whenever a predicate separates the two orders, filtering the ballot gives back the prefixes: the
+   candidates of one slate appear in the relative order of the Plackett-Luce draw *)
+Theorem cam_fill_filter : forall (P : pcand -> bool) own t ob oo,
+  (forall c, In c ob -> P c = true) -> (forall c, In c oo -> P c = false) ->
+  filter P (cam_fill own t ob oo) = firstn (count_bloc own t) ob /\
+  filter (fun c => negb (P c)) (cam_fill own t ob oo) = firstn (count_other own t) oo.
+Proof.
+  intros P own. induction t as [|b t IH]; intros ob oo Hb Ho.
+  - cbn. split; reflexivity.
+  - cbn [cam_fill]. rewrite count_bloc_cons_eqb, count_other_cons. destruct (Pos.eqb b own).
+    + destruct ob as [|c ob].
+      * destruct (IH [] oo Hb Ho) as [I1 I2]. rewrite firstn_nil_any in *. split; assumption.
+      * assert (Hc : P c = true) by (apply Hb; left; reflexivity).
+        destruct (IH ob oo) as [I1 I2]; [intros x Hx; apply Hb; right; exact Hx|exact Ho|].
+        cbn [filter Nat.add firstn]. rewrite Hc. cbn [negb]. rewrite I1. split; [reflexivity|exact I2].
+    + destruct oo as [|c oo].
+      * destruct (IH ob [] Hb Ho) as [I1 I2]. rewrite firstn_nil_any in *. split; assumption.
+      * assert (Hc : P c = false) by (apply Ho; left; reflexivity).
+        destruct (IH ob oo) as [I1 I2]; [exact Hb|intros x Hx; apply Ho; right; exact Hx|].
+        cbn [filter Nat.add firstn]. rewrite Hc. cbn [negb]. rewrite I2. split; [exact I1|reflexivity].
+Qed.
+
+Lemma firstn_incl : forall (A : Type) n (l : list A), incl (firstn n l) l.
+Proof.
+  intros A n l. rewrite <- (firstn_skipn n l) at 2. apply incl_appl. apply incl_refl.
+Qed.
+
+Lemma firstn_NoDup : forall (A : Type) n (l : list A), NoDup l -> NoDup (firstn n l).
+Proof.
+  intros A n. induction n as [|n IH]; intros [|a l] H; cbn [firstn]; try constructor.
+  - inversion H as [|x l' Hn Hnd]; subst. intros Hin. apply Hn. apply (firstn_incl A n l a Hin).
+  - inversion H as [|x l' Hn Hnd]; subst. apply IH. exact Hnd.
+Qed.
+
+Theorem cam_fill_NoDup : forall own t ob oo,
+  NoDup ob -> NoDup oo -> (forall c, In c ob -> ~ In c oo) -> NoDup (cam_fill own t ob oo).
+Proof.
+  intros own t ob oo H1 H2 H3.
+  apply (Permutation_NoDup (Permutation_sym (cam_fill_perm own t ob oo))).
+  apply Lib_sets.NoDup_app_intro; [apply firstn_NoDup; exact H1|apply firstn_NoDup; exact H2|].
+  intros c Hc Hc'. apply (H3 c); [apply (firstn_incl _ _ _ c Hc)|apply (firstn_incl _ _ _ c Hc')].
+Qed.
+
+(* first place: a type that starts with the own label puts the first own-slate candidate of the
+   draw first; a type that starts with another label the first opposing-slate candidate *)
+Theorem cam_fill_head : forall own b t ob oo,
+  (Pos.eqb b own = true -> forall c ob', ob = c :: ob' ->
+     cam_fill own (b :: t) ob oo = c :: cam_fill own t ob' oo) /\
+  (Pos.eqb b own = false -> forall c oo', oo = c :: oo' ->
+     cam_fill own (b :: t) ob oo = c :: cam_fill own t ob oo').
+Proof.
+  intros own b t ob oo. cbn [cam_fill]. split; intros E c l ->; rewrite E; reflexivity.
+Qed.
+
+(* ------------------------------------------------------------------ *)
+(** * 3. CambridgeSampler: one ballot, one bloc *)
+
+Lemma filter_pmem_In : forall (s d : list pcand) c,
+  In c (filter (fun x => pmem x s) d) <-> In c d /\ pmem c s = true.
+Proof. intros s d c. apply filter_In. Qed.
+
+Theorem cam_ballot_wf : forall iv own so sp d b calls,
+  cam_ballot iv own so sp d = inl (b, calls) ->
+  let ob := filter (fun c => pmem c so) (snd d) in
+  let oo := filter (fun c => pmem c sp) (snd d) in
+  let r := cam_fill own (fst d) ob oo in
+  calls = [CamPL (pi_int iv) (length (pi_int iv))] /\
+  (length (snd d) = length (pi_int iv) /\ NoDup (snd d) /\ incl (snd d) (map fst (pi_int iv)) /\
+   incl (map fst (pi_int iv)) (snd d)) /\
+  b = unit_ballot (singletons pcand r) /\
+  wt b == 1 /\ sc b = [] /\ rk b = singletons pcand r /\ flat pcand (rk b) = r /\
+  incl r (snd d) /\
+  (forall c, In c r -> pmem c so = true \/ pmem c sp = true) /\
+  Permutation r (firstn (count_bloc own (fst d)) ob ++ firstn (count_other own (fst d)) oo) /\
+  length r = (Nat.min (count_bloc own (fst d)) (length ob) +
+              Nat.min (count_other own (fst d)) (length oo))%nat /\
+  ((forall c, pmem c so = true -> pmem c sp = true -> False) ->
+     NoDup r /\
+     filter (fun c => pmem c so) r = firstn (count_bloc own (fst d)) ob /\
+     filter (fun c => pmem c sp) r = firstn (count_other own (fst d)) oo).
+Proof.
+  intros iv own so sp d b calls H. cbv zeta. unfold cam_ballot in H.
+  destruct (valid_sample (map fst (pi_int iv)) (length (pi_int iv)) (snd d)) eqn:Ev;
+    cbn [negb] in H; [|discriminate].
+  unfold ok in H. injection H as <- <-.
+  apply valid_sample_iff in Ev. destruct Ev as (L & N & I).
+  set (ob := filter (fun c => pmem c so) (snd d)).
+  set (oo := filter (fun c => pmem c sp) (snd d)).
+  set (r := cam_fill own (fst d) ob oo).
+  pose proof (cam_fill_perm own (fst d) ob oo) as HP. fold r in HP.
+  assert (Hob : incl ob (snd d)) by (intros c Hc; apply filter_In in Hc; tauto).
+  assert (Hoo : incl oo (snd d)) by (intros c Hc; apply filter_In in Hc; tauto).
+  assert (Hsrc : forall c, In c r -> In c ob \/ In c oo).
+  { intros c Hc. apply (Permutation_in _ HP) in Hc. apply in_app_or in Hc.
+    destruct Hc as [Hc|Hc]; [left|right]; apply (firstn_incl _ _ _ c Hc). }
+  split; [reflexivity|]. split.
+  { split; [exact L|]. split; [exact N|]. split; [exact I|].
+    apply NoDup_length_incl; [exact N|rewrite map_length; lia|exact I]. }
+  split; [reflexivity|]. split; [reflexivity|]. split; [reflexivity|]. split; [reflexivity|].
+  split; [apply (Lib_sets.flat_singletons pcand)|].
+  split; [intros c Hc; destruct (Hsrc c Hc) as [Hc'|Hc']; [apply Hob|apply Hoo]; exact Hc'|].
+  split.
+  { intros c Hc. destruct (Hsrc c Hc) as [Hc'|Hc']; apply filter_In in Hc'; tauto. }
+  split; [exact HP|]. split; [apply cam_fill_length|].
+  intros Hdis.
+  assert (Hsep1 : forall c, In c ob -> pmem c so = true) by (intros c Hc; apply filter_In in Hc; tauto).
+  assert (Hsep2 : forall c, In c oo -> pmem c so = false).
+  { intros c Hc. apply filter_In in Hc. destruct Hc as [_ Hc].
+    destruct (pmem c so) eqn:E; [exfalso; apply (Hdis c E Hc)|reflexivity]. }
+  split.
+  { apply cam_fill_NoDup; [apply NoDup_filter; exact N|apply NoDup_filter; exact N|].
+    intros c Hc Hc'. apply Hsep1 in Hc. apply Hsep2 in Hc'. congruence. }
+  destruct (cam_fill_filter (fun c => pmem c so) own (fst d) ob oo Hsep1 Hsep2) as [F1 _].
+  split; [exact F1|].
+  assert (Hsep3 : forall c, In c ob -> pmem c sp = false).
+  { intros c Hc. apply Hsep1 in Hc. destruct (pmem c sp) eqn:E; [exfalso; apply (Hdis c Hc E)|reflexivity]. }
+  assert (Hsep4 : forall c, In c oo -> pmem c sp = true) by (intros c Hc; apply filter_In in Hc; tauto).
+  destruct (cam_fill_filter (fun c => negb (pmem c sp)) own (fst d) ob oo) as [_ F2].
+  { intros c Hc. rewrite (Hsep3 c Hc). reflexivity. }
+  { intros c Hc. rewrite (Hsep4 c Hc). reflexivity. }
+  rewrite <- F2. apply filter_ext. intros c. rewrite negb_involutive. reflexivity.
+Qed.
+
+(* the served-slot reading for one ballot (no disjointness needed) *)
+Theorem cam_ballot_slots : forall iv own so sp d b calls,
+  cam_ballot iv own so sp d = inl (b, calls) ->
+  let ob := filter (fun c => pmem c so) (snd d) in
+  let oo := filter (fun c => pmem c sp) (snd d) in
+  let k := cam_kept own (fst d) (length ob) (length oo) in
+  length (flat pcand (rk b)) = length k /\
+  slots own k (flat pcand (rk b)) = firstn (count_bloc own (fst d)) ob /\
+  other_slots own k (flat pcand (rk b)) = firstn (count_other own (fst d)) oo /\
+  (forall i l, nth_error k i = Some l ->
+     exists c, nth_error (flat pcand (rk b)) i = Some c /\ In c (snd d) /\
+               (if Pos.eqb l own then pmem c so = true else pmem c sp = true)).
+Proof.
+  intros iv own so sp d b calls H. cbv zeta.
+  destruct (cam_ballot_wf iv own so sp d b calls H) as (_ & _ & _ & _ & _ & _ & Hf & _).
+  cbv zeta in Hf. rewrite Hf.
+  destruct (cam_fill_slots own (fst d) (filter (fun c => pmem c so) (snd d))
+              (filter (fun c => pmem c sp) (snd d))) as (S1 & S2 & S3). cbv zeta in S1, S2, S3.
+  split; [exact S1|]. split; [exact S2|]. split; [exact S3|].
+  intros i l Hl. destruct (cam_fill_positions own (fst d) _ _ i l Hl) as (c & Hc & Hin).
+  exists c. split; [exact Hc|]. destruct (Pos.eqb l own); apply filter_In in Hin; tauto.
+Qed.
+
+(* ---------- the conditional tables ---------- *)
+Theorem cond_table_spec : forall freqs l,
+  let sel := filter (fun e : btype * Q => starts_with l (fst e)) freqs in
+  map fst (cond_table freqs l) = map fst sel /\
+  (forall t v, In (t, v) (cond_table freqs l) ->
+     starts_with l t = true /\ exists f, In (t, f) freqs /\ v = f / qsum (map snd sel)) /\
+  (forall t f, In (t, f) freqs -> starts_with l t = true ->
+     In (t, f / qsum (map snd sel)) (cond_table freqs l)) /\
+  (~ qsum (map snd sel) == 0 -> qsum (map snd (cond_table freqs l)) == 1) /\
+  ((forall t f, In (t, f) freqs -> 0 <= f) -> forall t v, In (t, v) (cond_table freqs l) -> 0 <= v).
+Proof.
+  intros freqs l. cbv zeta. unfold cond_table.
+  set (sel := filter (fun e : btype * Q => starts_with l (fst e)) freqs).
+  set (tot := qsum (map snd sel)).
+  split; [rewrite map_map; reflexivity|]. split.
+  { intros t v Hin. apply in_map_iff in Hin. destruct Hin as ([t' f] & E & Hin). cbn [fst snd] in E.
+    injection E as -> <-. apply filter_In in Hin. destruct Hin as [Hin Hs]. cbn [fst] in Hs.
+    split; [exact Hs|]. exists f. split; [exact Hin|reflexivity]. }
+  split.
+  { intros t f Hin Hs. apply in_map_iff. exists (t, f). split; [reflexivity|].
+    apply filter_In. split; [exact Hin|exact Hs]. }
+  split.
+  { intros Hnz. rewrite map_map. cbn [snd]. rewrite (Dist.qsum_map_div snd tot sel). fold tot.
+    field. exact Hnz. }
+  intros Hnn t v Hin. apply in_map_iff in Hin. destruct Hin as ([t' f] & E & Hin). cbn [fst snd] in E.
+  injection E as _ <-.
+  assert (Ht : 0 <= tot).
+  { apply Dist.qsum_map_nonneg. intros [t1 f1] H1. cbn [snd]. apply filter_In in H1.
+    apply (Hnn t1 f1). tauto. }
+  apply filter_In in Hin. destruct Hin as [Hin _]. pose proof (Hnn t' f Hin) as Hf.
+  unfold Qdiv. apply Qmult_le_0_compat; [exact Hf|]. apply Qinv_le_0_compat. exact Ht.
+Qed.
+
+(* ---------- one bloc ---------- *)
+Lemma btype_eqb_true_iff : forall a b, btype_eqb a b = true <-> a = b.
+Proof.
+  intros a b. unfold btype_eqb. destruct (list_eq_dec Pos.eq_dec a b) as [E|E].
+  - split; [intros _; exact E|reflexivity].
+  - split; [discriminate|intros H; contradiction].
+Qed.
+
+Lemma in_tbl_spec : forall (tbl : list (btype * Q)) t,
+  existsb (fun e => btype_eqb (fst e) t && Qlt_bool 0 (snd e)) tbl = true ->
+  exists v, In (t, v) tbl /\ 0 < v.
+Proof.
+  intros tbl t H. apply existsb_exists in H. destruct H as ([t' v] & Hin & E). cbn [fst snd] in E.
+  apply andb_true_iff in E. destruct E as [E1 E2]. apply btype_eqb_true_iff in E1. subst t'.
+  apply Lib_rk.Qlt_bool_iff in E2. exists v. split; assumption.
+Qed.
+
+Lemma nth_error_firstn_In : forall (A : Type) (l : list A) n i x,
+  nth_error l i = Some x -> (i < n)%nat -> In x (firstn n l).
+Proof.
+  intros A. induction l as [|a l IH]; intros n i x H Hi; [destruct i; discriminate|].
+  destruct n as [|n]; [lia|]. cbn [firstn]. destruct i as [|i]; cbn [nth_error] in H.
+  - injection H as <-. left. reflexivity.
+  - right. apply (IH n i x H). lia.
+Qed.
+
+Lemma nth_error_skipn_In : forall (A : Type) (l : list A) n i x,
+  nth_error l i = Some x -> (n <= i)%nat -> In x (skipn n l).
+Proof.
+  intros A. induction l as [|a l IH]; intros n i x H Hi; [destruct i; discriminate|].
+  destruct n as [|n]; [cbn [skipn]; apply (nth_error_In _ _ H)|].
+  cbn [skipn]. destruct i as [|i]; [lia|]. cbn [nth_error] in H. apply (IH n i x H). lia.
+Qed.
+
+Lemma cam_collect_inv : forall (g : btype * list pcand -> res (gballot * list camcall)) draws bs calls,
+  cam_collect (map g draws) = inl (bs, calls) ->
+  exists xs, Forall2 (fun d x => g d = inl x) draws xs /\ bs = map fst xs /\ calls = concat (map snd xs).
+Proof.
+  intros g draws bs calls H. unfold cam_collect in H.
+  destruct (rmap (fun x => x) (map g draws)) as [xs|e] eqn:E; cbn [rbind] in H; [|discriminate].
+  unfold ok in H. injection H as <- <-. exists xs. split; [|split; reflexivity].
+  apply rmap_ok_inv in E. clear -E. revert xs E. induction draws as [|d draws IH]; intros xs E.
+  - inversion E. constructor.
+  - cbn [map] in E. inversion E as [|a x la lx Hax Hrest]; subst. constructor; [exact Hax|].
+    apply IH. exact Hrest.
+Qed.
+
+Theorem cam_bloc_wf : forall freqs iv own opp so sp nb nc draws bs calls,
+  cam_bloc freqs iv own opp so sp nb nc draws = inl (bs, calls) ->
+  length draws = (nb + nc)%nat /\ length bs = (nb + nc)%nat /\
+  calls = CamChoices (cond_table freqs own) nb :: CamChoices (cond_table freqs opp) nc ::
+          repeat (CamPL (pi_int iv) (length (pi_int iv))) (nb + nc) /\
+  (forall i d, nth_error draws i = Some d ->
+     (exists b, nth_error bs i = Some b /\
+                cam_ballot iv own so sp d = inl (b, [CamPL (pi_int iv) (length (pi_int iv))])) /\
+     ((i < nb)%nat -> starts_with own (fst d) = true /\
+                      exists v, In (fst d, v) (cond_table freqs own) /\ 0 < v) /\
+     ((nb <= i)%nat -> starts_with opp (fst d) = true /\
+                       exists v, In (fst d, v) (cond_table freqs opp) /\ 0 < v)) /\
+  (forall b, In b bs -> wt b == 1 /\ sc b = []).
+Proof.
+  intros freqs iv own opp so sp nb nc draws bs calls H. unfold cam_bloc in H.
+  destruct (Nat.eqb_spec (length draws) (nb + nc)) as [Hl|Hl]; cbn [negb] in H; [|discriminate].
+  match type of H with (if negb ?c then _ else _) = _ => destruct c eqn:E1 end; cbn [negb] in H; [|discriminate].
+  match type of H with (if negb ?c then _ else _) = _ => destruct c eqn:E2 end; cbn [negb] in H; [|discriminate].
+  destruct (cam_collect (map (cam_ballot iv own so sp) draws)) as [[bs0 cs0]|e] eqn:Ec; cbn [rbind] in H;
+    [|discriminate].
+  unfold ok in H. cbn [fst snd] in H. injection H as <- <-.
+  apply cam_collect_inv in Ec. destruct Ec as (xs & HF & -> & ->).
+  assert (Hsnd : forall d x, cam_ballot iv own so sp d = inl x ->
+                 snd x = [CamPL (pi_int iv) (length (pi_int iv))]).
+  { intros d [b c] Hx. cbn [snd]. apply (proj1 (cam_ballot_wf iv own so sp d b c Hx)). }
+  assert (Hcalls : concat (map snd xs) = repeat (CamPL (pi_int iv) (length (pi_int iv))) (length draws)).
+  { clear -HF Hsnd. induction HF as [|d x draws xs Hdx _ IH]; [reflexivity|].
+    cbn [map concat length repeat]. rewrite (Hsnd d x Hdx), IH. reflexivity. }
+  rewrite forallb_forall in E1, E2.
+  split; [exact Hl|]. split; [rewrite map_length, <- (Forall2_length_eq _ _ _ HF); exact Hl|].
+  split; [rewrite Hcalls, Hl; reflexivity|]. split.
+  { intros i d Hd. split; [|split].
+    - destruct (Forall2_nth_error_l _ _ _ i d HF Hd) as ([b c] & Hx & Hg).
+      exists b. split; [rewrite nth_error_map, Hx; reflexivity|].
+      pose proof (Hsnd d (b, c) Hg) as Hc. cbn [snd] in Hc. rewrite <- Hc. exact Hg.
+    - intros Hi. specialize (E1 d (nth_error_firstn_In _ _ _ _ _ Hd Hi)).
+      apply in_tbl_spec in E1. destruct E1 as (v & Hv & Hpos).
+      split; [exact (proj1 (proj1 (proj2 (cond_table_spec freqs own)) _ _ Hv))|].
+      exists v. split; assumption.
+    - intros Hi. specialize (E2 d (nth_error_skipn_In _ _ _ _ _ Hd Hi)).
+      apply in_tbl_spec in E2. destruct E2 as (v & Hv & Hpos).
+      split; [exact (proj1 (proj1 (proj2 (cond_table_spec freqs opp)) _ _ Hv))|].
+      exists v. split; assumption. }
+  intros b Hb. apply in_map_iff in Hb. destruct Hb as ([b' c] & <- & Hx). cbn [fst].
+  clear -HF Hx. induction HF as [|d x draws xs Hdx _ IH]; [destruct Hx|].
+  destruct Hx as [->|Hx]; [|apply IH; exact Hx].
+  destruct (cam_ballot_wf iv own so sp d b' c Hdx) as (_ & _ & _ & Hw & Hs & _).
+  split; assumption.
+Qed.
+
+(* bloc-first versus opposing-first ballots *)
+Theorem cam_bloc_first_choice : forall freqs iv own opp so sp nb nc draws bs calls i d b,
+  cam_bloc freqs iv own opp so sp nb nc draws = inl (bs, calls) ->
+  nth_error draws i = Some d -> nth_error bs i = Some b ->
+  ((i < nb)%nat -> (exists c, In c (map fst (pi_int iv)) /\ pmem c so = true) ->
+     exists c rest, flat pcand (rk b) = c :: rest /\ pmem c so = true /\
+                    hd_error (filter (fun x => pmem x so) (snd d)) = Some c) /\
+  ((nb <= i)%nat -> own <> opp -> (exists c, In c (map fst (pi_int iv)) /\ pmem c sp = true) ->
+     exists c rest, flat pcand (rk b) = c :: rest /\ pmem c sp = true /\
+                    hd_error (filter (fun x => pmem x sp) (snd d)) = Some c).
+Proof.
+  intros freqs iv own opp so sp nb nc draws bs calls i d b H Hd Hb.
+  destruct (cam_bloc_wf _ _ _ _ _ _ _ _ _ _ _ H) as (_ & _ & _ & Hall & _).
+  destruct (Hall i d Hd) as ((b' & Hb' & Hg) & Hown & Hopp).
+  rewrite Hb in Hb'. injection Hb' as <-.
+  destruct (cam_ballot_wf iv own so sp d b _ Hg) as (_ & (_ & _ & _ & Hcov) & _ & _ & _ & _ & Hf & _).
+  cbv zeta in Hf. rewrite Hf.
+  assert (Hne : forall (s : list pcand), (exists c, In c (map fst (pi_int iv)) /\ pmem c s = true) ->
+            exists c0 l0, filter (fun x => pmem x s) (snd d) = c0 :: l0 /\ pmem c0 s = true).
+  { intros s (c & Hc & Hs).
+    assert (Hin : In c (filter (fun x => pmem x s) (snd d))).
+    { apply filter_In. split; [apply Hcov; exact Hc|exact Hs]. }
+    destruct (filter (fun x => pmem x s) (snd d)) as [|c0 l0] eqn:E; [destruct Hin|].
+    exists c0, l0. split; [reflexivity|].
+    assert (Hc0 : In c0 (filter (fun x => pmem x s) (snd d))) by (rewrite E; left; reflexivity).
+    apply filter_In in Hc0. tauto. }
+  split.
+  - intros Hi Hex. destruct (Hown Hi) as [Hs _]. destruct (Hne so Hex) as (c0 & l0 & E & Hc0).
+    destruct (fst d) as [|l t] eqn:Et; [discriminate|]. cbn [starts_with] in Hs.
+    rewrite E. exists c0. eexists. split; [|split; [exact Hc0|reflexivity]].
+    exact (proj1 (cam_fill_head own l t (c0 :: l0) _) Hs c0 l0 eq_refl).
+  - intros Hi Hneq Hex. destruct (Hopp Hi) as [Hs _]. destruct (Hne sp Hex) as (c0 & l0 & E & Hc0).
+    destruct (fst d) as [|l t] eqn:Et; [discriminate|]. cbn [starts_with] in Hs.
+    apply Pos.eqb_eq in Hs. subst l.
+    assert (Hs' : Pos.eqb opp own = false) by (apply Pos.eqb_neq; congruence).
+    rewrite E. exists c0. eexists. split; [|split; [exact Hc0|reflexivity]].
+    exact (proj2 (cam_fill_head own opp t _ (c0 :: l0)) Hs' c0 l0 eq_refl).
+Qed.
+
+(* ---------- per-bloc totals through finish_blocs ---------- *)
+Lemma pairs_of_sums : forall l, map (fun s : nat * nat => (fst s + snd s)%nat) (pairs_of l) = pair_sums l.
+Proof.
+  fix IH 1. intros [|a [|b l]]; [reflexivity|reflexivity|].
+  cbn [pairs_of pair_sums map fst snd]. rewrite IH. reflexivity.
+Qed.
+
+Definition cam_pool (bp : bloc * list gballot) (s : nat * nat) : Prop :=
+  exists freqs iv own opp so sp draws calls,
+    cam_bloc freqs iv own opp so sp (fst s) (snd s) draws = inl (snd bp, calls).
+
+Lemma cam_pools_sizes : forall pools splits,
+  Forall2 cam_pool pools splits ->
+  map (fun bp : bloc * list gballot => length (snd bp)) pools
+    = map (fun s : nat * nat => (fst s + snd s)%nat) splits /\
+  (forall bp b, In bp pools -> In b (snd bp) -> wt b == 1).
+Proof.
+  intros pools splits H. induction H as [|bp s pools splits Hbs _ [IH1 IH2]].
+  - split; [reflexivity|intros bp b []].
+  - destruct Hbs as (freqs & iv & own & opp & so & sp & draws & calls & Hc).
+    destruct (cam_bloc_wf _ _ _ _ _ _ _ _ _ _ _ Hc) as (_ & Hl & _ & _ & Hu).
+    split; [cbn [map]; rewrite Hl, IH1; reflexivity|].
+    intros bp' b [<-|Hin] Hb; [apply (Hu b Hb)|apply (IH2 bp' b Hin Hb)].
+Qed.
+
+Theorem cam_profile_sizes : forall pools splits by_bloc agg,
+  Forall2 cam_pool pools splits ->
+  finish_blocs pools = inl (by_bloc, agg) ->
+  length by_bloc = length splits /\
+  map fst by_bloc = map fst pools /\
+  Forall2 (fun (bq : bloc * gprofile) (s : nat * nat) =>
+             total_wt pcand (ballots (snd bq)) == Qnat (fst s + snd s)) by_bloc splits /\
+  total_wt pcand (ballots agg) == Qnat (list_sum (map (fun s : nat * nat => (fst s + snd s)%nat) splits)) /\
+  whole_pos_weights (ballots agg) /\
+  (forall bq, In bq by_bloc -> whole_pos_weights (ballots (snd bq))).
+Proof.
+  intros pools splits by_bloc agg HF H. destruct (cam_pools_sizes pools splits HF) as [Hs Hu].
+  destruct (finish_sizes _ pools by_bloc agg Hs Hu H) as (S1 & S2 & S3 & S4).
+  split; [rewrite S1, map_length; reflexivity|]. split; [exact S2|]. split.
+  { clear -S3. remember (map (fun s : nat * nat => (fst s + snd s)%nat) splits) as sizes eqn:E.
+    revert splits E. induction S3 as [|bq n by_bloc sizes Hbn _ IH]; intros [|s splits] E; try discriminate.
+    - constructor.
+    - cbn [map] in E. injection E as -> E. constructor; [exact Hbn|apply IH; exact E]. }
+  split; [exact S4|].
+  apply (finish_integral_positive pools by_bloc agg H).
+  intros bp Hbp b Hb. apply whole_pos_1. apply (Hu bp b Hbp Hb).
+Qed.
+
+Section CamApportion.
+Variable apportion : list Q -> nat -> list nat.
+Hypothesis apportion_ok : forall props N, props <> [] ->
+  length (apportion props N) = length props /\ fold_right Nat.add 0%nat (apportion props N) = N.
+
+Theorem cam_crossover_sizes : forall (cp : list (Q * Q)) N pools by_bloc agg,
+  cp <> [] ->
+  Forall2 cam_pool pools (pairs_of (apportion (cross_props cp) N)) ->
+  finish_blocs pools = inl (by_bloc, agg) ->
+  length by_bloc = length cp /\
+  map fst by_bloc = map fst pools /\
+  (forall i bq, nth_error by_bloc i = Some bq ->
+     total_wt pcand (ballots (snd bq)) ==
+     Qnat (nth (2 * i) (apportion (cross_props cp) N) 0%nat +
+           nth (2 * i + 1) (apportion (cross_props cp) N) 0%nat)) /\
+  total_wt pcand (ballots agg) == Qnat N /\
+  whole_pos_weights (ballots agg).
+Proof.
+  intros cp N pools by_bloc agg Hcp HF H.
+  destruct (cam_pools_sizes _ _ HF) as [Hs Hu]. rewrite pairs_of_sums in Hs.
+  destruct (cross_sizes_proof apportion apportion_ok cp N pools by_bloc agg Hcp Hs Hu H)
+    as (_ & C2 & C3 & C4 & C5).
+  split; [exact C2|]. split; [exact C3|]. split; [exact C4|]. split; [exact C5|].
+  apply (proj1 (finish_integral_positive pools by_bloc agg H
+    (fun bp Hbp b Hb => whole_pos_1 _ (Hu bp b Hbp Hb)))).
+Qed.
+End CamApportion.
+
+(* ------------------------------------------------------------------ *)
+(** * 4. The exact slate-Bradley-Terry path: every type of the table has the right multiplicities *)
+
+Definition sizes_of_intervals (intervals : list (bloc * pinterval)) : list (bloc * nat) :=
+  map (fun x : bloc * pinterval => (fst x, length (pi_int (snd x)))) intervals.
+
+Lemma to_sample_members : forall sizes b, In b (to_sample sizes) -> In b (map fst sizes).
+Proof.
+  intros sizes b H. unfold to_sample in H. apply in_concat in H. destruct H as (l & Hl & Hb).
+  apply in_map_iff in Hl. destruct Hl as ([b' n] & <- & Hin). cbn [fst snd] in Hb.
+  apply repeat_spec in Hb. subst b. apply in_map_iff. exists (b', n). split; [reflexivity|exact Hin].
+Qed.
+
+Lemma sizes_of_intervals_keys : forall intervals, map fst (sizes_of_intervals intervals) = map fst intervals.
+Proof. intros intervals. unfold sizes_of_intervals. rewrite map_map. reflexivity. Qed.
+
+Lemma count_to_sample : forall intervals bl iv,
+  NoDup (map fst intervals) -> In (bl, iv) intervals ->
+  count_bloc bl (to_sample (sizes_of_intervals intervals)) = length (pi_int iv).
+Proof.
+  induction intervals as [|[b0 iv0] rest IH]; intros bl iv Hnd Hin; [destruct Hin|].
+  cbn [map fst] in Hnd. inversion Hnd as [|x l Hnotin Hnd']; subst.
+  unfold sizes_of_intervals, to_sample. cbn [map concat fst snd]. rewrite count_bloc_app.
+  fold (sizes_of_intervals rest). fold (to_sample (sizes_of_intervals rest)).
+  destruct Hin as [E|Hin].
+  - injection E as -> ->. rewrite count_bloc_repeat_same.
+    rewrite (count_bloc_not_in bl (to_sample (sizes_of_intervals rest))); [lia|].
+    intros H. apply to_sample_members in H. rewrite sizes_of_intervals_keys in H. contradiction.
+  - assert (Hne : bl <> b0).
+    { intros ->. apply Hnotin. apply in_map_iff. exists (b0, iv). split; [reflexivity|exact Hin]. }
+    rewrite (count_bloc_repeat_other bl b0 _ Hne), (IH bl iv Hnd' Hin). reflexivity.
+Qed.
+
+Lemma size_of_intervals : forall intervals bl iv,
+  NoDup (map fst intervals) -> In (bl, iv) intervals ->
+  size_of (sizes_of_intervals intervals) bl = length (pi_int iv).
+Proof.
+  induction intervals as [|[b0 iv0] rest IH]; intros bl iv Hnd Hin; [destruct Hin|].
+  cbn [map fst] in Hnd. inversion Hnd as [|x l Hnotin Hnd']; subst.
+  unfold size_of, sizes_of_intervals. cbn [map find fst snd].
+  destruct (Pos.eqb_spec bl b0) as [->|Hne].
+  - destruct Hin as [E|Hin]; [injection E as ->; reflexivity|].
+    exfalso. apply Hnotin. apply in_map_iff. exists (b0, iv). split; [reflexivity|exact Hin].
+  - destruct Hin as [E|Hin]; [injection E as E1 _; congruence|].
+    exact (IH bl iv Hnd' Hin).
+Qed.
+
+(* the hypotheses of [slate_ballot_wf] hold for every ballot type the exact sampler can draw *)
+Theorem slate_bt_type_counts : forall intervals own opp c t v,
+  NoDup (map fst intervals) ->
+  In (t, v) (slate_bt_pdf (sizes_of_intervals intervals) own opp c) ->
+  (forall x, In x t -> In x (map fst intervals)) /\
+  (forall bl iv, In (bl, iv) intervals -> count_bloc bl t = length (pi_int iv)) /\
+  length t = list_sum (map (fun x : bloc * pinterval => length (pi_int (snd x))) intervals).
+Proof.
+  intros intervals own opp c t v Hnd Hin.
+  destruct (slate_entry_general _ own opp c t v Hin) as [HP _].
+  split; [|split].
+  - intros x Hx. rewrite <- sizes_of_intervals_keys. apply to_sample_members.
+    apply (Permutation_in _ HP Hx).
+  - intros bl iv Hbi. rewrite (count_bloc_perm bl _ _ HP). apply count_to_sample; assumption.
+  - rewrite (Permutation_length HP). clear. unfold to_sample, sizes_of_intervals.
+    induction intervals as [|[b0 iv0] rest IH]; [reflexivity|].
+    cbn [map concat fst snd list_sum]. rewrite app_length, repeat_length, IH. reflexivity.
+Qed.
+
+(* ... and for every state of the MCMC chain started at the seed type *)
+Theorem slate_mcmc_type_counts : forall intervals own c steps t,
+  NoDup (map fst intervals) ->
+  In t (slate_mcmc_run own c (to_sample (sizes_of_intervals intervals)) steps) ->
+  (forall x, In x t -> In x (map fst intervals)) /\
+  (forall bl iv, In (bl, iv) intervals -> count_bloc bl t = length (pi_int iv)).
+Proof.
+  intros intervals own c steps t Hnd Hin.
+  destruct (slate_mcmc_run_perm own c steps _ t Hin) as [HP Hc]. split.
+  - intros x Hx. rewrite <- sizes_of_intervals_keys. apply to_sample_members.
+    apply (Permutation_in _ HP Hx).
+  - intros bl iv Hbi. rewrite Hc. apply count_to_sample; assumption.
+Qed.
+
+Lemma concat_map_perm : forall (A B : Type) (f g : A -> list B) (l : list A),
+  (forall a, In a l -> Permutation (f a) (g a)) ->
+  Permutation (concat (map f l)) (concat (map g l)).
+Proof.
+  intros A B f g l. induction l as [|a l IH]; intros H; [constructor|].
+  cbn [map concat]. apply Permutation_app; [apply H; left; reflexivity|].
+  apply IH. intros a' Ha'. apply H. right. exact Ha'.
+Qed.
+
+Lemma NoDup_concat_each : forall (A : Type) (L : list (list A)) l, NoDup (concat L) -> In l L -> NoDup l.
+Proof.
+  intros A L. induction L as [|l0 L IH]; intros l H Hin; [destruct Hin|].
+  cbn [concat] in H. apply Lib_sets.NoDup_app_inv in H. destruct H as (H1 & H2 & _).
+  destruct Hin as [<-|Hin]; [exact H1|apply IH; assumption].
+Qed.
+
+Theorem slate_bt_exact_ballot : forall intervals zero own opp c t v orders b calls,
+  NoDup (map fst intervals) ->
+  In (t, v) (slate_bt_pdf (sizes_of_intervals intervals) own opp c) ->
+  slate_ballot intervals zero t orders = inl (b, calls) ->
+  exists r,
+    wt b == 1 /\ sc b = [] /\
+    rk b = singletons pcand r ++ (match zero with [] => [] | _ => [zero] end) /\
+    flat pcand (rk b) = r ++ zero /\
+    length r = list_sum (map (fun x : bloc * pinterval => length (pi_int (snd x))) intervals) /\
+    (forall bl iv, In (bl, iv) intervals ->
+       (pi_int iv <> [] -> slots bl t r = order_of orders bl) /\
+       length (slots bl t r) = length (pi_int iv) /\ NoDup (slots bl t r) /\
+       incl (slots bl t r) (map fst (pi_int iv)) /\
+       (NoDup (map fst (pi_int iv)) -> Permutation (slots bl t r) (map fst (pi_int iv)))) /\
+    Permutation r (concat (map (fun x : bloc * pinterval => slots (fst x) t r) intervals)) /\
+    calls = map (fun x : bloc * pinterval => GPL (pi_int (snd x)) (length (pi_int (snd x))))
+                (filter (fun x : bloc * pinterval => nonempty (pi_int (snd x))) intervals) /\
+    (NoDup (concat (map (fun x : bloc * pinterval => map fst (pi_int (snd x))) intervals)) ->
+       Permutation r (concat (map (fun x : bloc * pinterval => map fst (pi_int (snd x))) intervals)) /\
+       (NoDup zero -> (forall x, In x r -> ~ In x zero) -> NoDup (flat pcand (rk b)))).
+Proof.
+  intros intervals zero own opp c t v orders b calls Hnd Hin H.
+  destruct (slate_bt_type_counts intervals own opp c t v Hnd Hin) as (T1 & T2 & T3).
+  destruct (slate_ballot_wf intervals zero t orders b calls Hnd T1 T2 H)
+    as (r & W1 & W2 & W3 & W4 & W5 & W6 & W7 & W8).
+  exists r. split; [exact W1|]. split; [exact W2|]. split; [exact W3|]. split; [exact W4|].
+  split; [rewrite W5; exact T3|]. split; [exact W6|]. split; [exact W7|]. split; [exact W8|].
+  intros Hdis.
+  assert (HP : Permutation r (concat (map (fun x : bloc * pinterval => map fst (pi_int (snd x))) intervals))).
+  { eapply Permutation_trans; [exact W7|]. apply concat_map_perm. intros [bl iv] Hbi. cbn [fst snd].
+    destruct (W6 bl iv Hbi) as (_ & _ & _ & _ & Hp). apply Hp.
+    apply (NoDup_concat_each _ _ _ Hdis). apply in_map_iff. exists (bl, iv). split; [reflexivity|exact Hbi]. }
+  split; [exact HP|]. intros Hz Hrz. rewrite W4.
+  apply Lib_sets.NoDup_app_intro; [|exact Hz|exact Hrz].
+  apply (Permutation_NoDup (Permutation_sym HP) Hdis).
+Qed.
+
+(* ------------------------------------------------------------------ *)
+(** * 5. Plackett-Luce ballots from intervals as the library builds them *)
+
+(* PreferenceInterval(d): supported and zero-support candidates are disjoint *)
+Theorem pl_ballot_mk_interval : forall d iv bl draw b calls,
+  (forall c s, In (c, s) d -> 0 <= s) -> NoDup (map fst d) ->
+  mk_interval d = inl iv ->
+  pl_ballot iv bl draw = inl (b, calls) ->
+  NoDup (pi_cands iv) /\ Permutation (pi_cands iv) (map fst d) /\
+  NoDup (flat pcand (rk b)) /\ length (flat pcand (rk b)) = bl /\
+  incl (flat pcand (rk b)) (map fst d).
+Proof.
+  intros d iv bl draw b calls Hnn Hnd Hi H.
+  destruct (interval_normalised d iv Hnn Hi) as (_ & _ & _ & Z & K & _ & _ & _ & _ & Hdis).
+  destruct (Hdis Hnd) as (D1 & D2 & D3).
+  assert (Hndc : NoDup (pi_cands iv)).
+  { unfold pi_cands. apply Lib_sets.NoDup_app_intro; assumption. }
+  assert (Hsame : forall c, In c (pi_cands iv) <-> In c (map fst d)).
+  { intros c. unfold pi_cands. rewrite in_app_iff, K, Z. split.
+    - intros [(s & Hs & _)|(s & Hs & _)]; apply in_map_iff; exists (c, s); split; try reflexivity; exact Hs.
+    - intros Hc. apply in_map_iff in Hc. destruct Hc as ([c' s] & <- & Hs). cbn [fst].
+      pose proof (Hnn c' s Hs) as H0. destruct (Qlt_le_dec 0 s) as [Hpos|Hle].
+      + left. exists s. split; assumption.
+      + right. exists s. split; [exact Hs|]. lra. }
+  destruct (pl_ballot_wf iv bl draw b calls H) as (_ & _ & _ & _ & L & I & N).
+  split; [exact Hndc|]. split; [apply NoDup_Permutation; assumption|].
+  split; [apply N; exact D3|]. split; [exact L|].
+  intros c Hc. apply Hsame. apply I. exact Hc.
+Qed.
+
+(* combine_preference_intervals: the same for the combined interval *)
+Lemma concat_unique : forall (A : Type) (L : list (list A)) j1 j2 l1 l2 c,
+  NoDup (concat L) -> nth_error L j1 = Some l1 -> nth_error L j2 = Some l2 ->
+  In c l1 -> In c l2 -> j1 = j2.
+Proof.
+  intros A L. induction L as [|l0 L IH]; intros j1 j2 l1 l2 c Hnd H1 H2 Hc1 Hc2.
+  - destruct j1; discriminate.
+  - cbn [concat] in Hnd. apply Lib_sets.NoDup_app_inv in Hnd. destruct Hnd as (_ & Hnd' & Hdis).
+    destruct j1 as [|j1], j2 as [|j2]; cbn [nth_error] in H1, H2.
+    + reflexivity.
+    + injection H1 as <-. exfalso. apply (Hdis c Hc1). apply in_concat. exists l2.
+      split; [apply (nth_error_In _ _ H2)|exact Hc2].
+    + injection H2 as <-. exfalso. apply (Hdis c Hc2). apply in_concat. exists l1.
+      split; [apply (nth_error_In _ _ H1)|exact Hc1].
+    + f_equal. apply (IH j1 j2 l1 l2 c Hnd' H1 H2 Hc1 Hc2).
+Qed.
+
+Lemma in_combine_nth : forall (A B : Type) (a : list A) (b : list B) x y,
+  In (x, y) (combine a b) -> exists j, nth_error a j = Some x /\ nth_error b j = Some y.
+Proof.
+  intros A B a. induction a as [|z a IH]; intros [|w b] x y H; cbn [combine] in H; try (destruct H; fail).
+  destruct H as [E|H].
+  - injection E as <- <-. exists O. split; reflexivity.
+  - destruct (IH b x y H) as (j & J1 & J2). exists (S j). split; assumption.
+Qed.
+
+Theorem combine_cands : forall (is : list pinterval) (props : list Q) r,
+  Forall wf_interval is -> length is = length props -> Forall (fun p => 0 <= p) props ->
+  NoDup (concat (map pi_cands is)) -> rounds_to_one (qsum props) = true ->
+  combine_intervals is props = inl r ->
+  (forall c, In c (map fst (pi_int r)) -> ~ In c (pi_zero r)) /\
+  NoDup (pi_cands r) /\
+  Permutation (pi_cands r) (concat (map pi_cands is)).
+Proof.
+  intros is props r Hwf Hlen Hnn Hnd Hr Hc.
+  destruct (combine_ok is props Hwf Hlen Hnn Hnd Hr) as (r' & Hc' & C1 & C2 & C3 & C4 & C5 & _ & C7 & C8).
+  rewrite Hc in Hc'. injection Hc' as <-.
+  assert (Hpos : forall i p, In (i, p) (combine is props) ->
+            exists j, nth_error is j = Some i /\ nth_error props j = Some p).
+  { intros i p Hin. apply (in_combine_nth _ _ _ _ _ _ Hin). }
+  assert (Hndi : forall i, In i is -> NoDup (pi_cands i)).
+  { intros i Hi. apply (NoDup_concat_each _ _ _ Hnd). apply in_map. exact Hi. }
+  assert (Hdis : forall c, In c (map fst (pi_int r)) -> ~ In c (pi_zero r)).
+  { intros c Hk Hz. apply in_map_iff in Hk. destruct Hk as ([c' w] & <- & Hw). cbn [fst] in Hz.
+    destruct (C2 c' w Hw) as (i & p & v & Hip & Hv & Hp & _).
+    destruct (Hpos i p Hip) as (j & J1 & J2).
+    assert (Hki : In c' (map fst (pi_int i))).
+    { apply in_map_iff. exists (c', v). split; [reflexivity|exact Hv]. }
+    assert (Hci : In c' (pi_cands i)) by (unfold pi_cands; apply in_or_app; left; exact Hki).
+    destruct (C5 c' Hz) as [(i' & Hi' & Hz')|(i' & p' & v' & Hip' & Hv' & Hp')].
+    - destruct (In_nth_error _ _ Hi') as (j' & J').
+      assert (Hci' : In c' (pi_cands i')) by (unfold pi_cands; apply in_or_app; right; exact Hz').
+      pose proof (concat_unique _ _ j j' _ _ c' Hnd (map_nth_error pi_cands _ _ J1)
+                    (map_nth_error pi_cands _ _ J') Hci Hci') as E.
+      subst j'. rewrite J1 in J'. injection J' as <-.
+      pose proof (Hndi i Hi') as Hn. unfold pi_cands in Hn. apply Lib_sets.NoDup_app_inv in Hn.
+      destruct Hn as (_ & _ & Hd). apply (Hd c' Hki Hz').
+    - destruct (Hpos i' p' Hip') as (j' & J1' & J2').
+      assert (Hci' : In c' (pi_cands i')).
+      { unfold pi_cands. apply in_or_app. left. apply in_map_iff. exists (c', v'). split; [reflexivity|exact Hv']. }
+      pose proof (concat_unique _ _ j j' _ _ c' Hnd (map_nth_error pi_cands _ _ J1)
+                    (map_nth_error pi_cands _ _ J1') Hci Hci') as E. subst j'.
+      rewrite J2 in J2'. injection J2' as <-. rewrite Hp' in Hp. apply (Qlt_irrefl 0). exact Hp. }
+  assert (Hndr : NoDup (pi_cands r)).
+  { unfold pi_cands. apply Lib_sets.NoDup_app_intro; assumption. }
+  split; [exact Hdis|]. split; [exact Hndr|].
+  apply NoDup_Permutation; [exact Hndr|exact Hnd|].
+  intros c. split.
+  - intros Hc0. unfold pi_cands in Hc0. apply in_app_or in Hc0. destruct Hc0 as [Hk|Hz].
+    + apply in_map_iff in Hk. destruct Hk as ([c' w] & <- & Hw). cbn [fst].
+      destruct (C2 c' w Hw) as (i & p & v & Hip & Hv & _).
+      apply in_concat. exists (pi_cands i). split; [apply in_map; apply (in_combine_l _ _ _ _ Hip)|].
+      unfold pi_cands. apply in_or_app. left. apply in_map_iff. exists (c', v). split; [reflexivity|exact Hv].
+    + destruct (C5 c Hz) as [(i' & Hi' & Hz')|(i' & p' & v' & Hip' & Hv' & _)].
+      * apply in_concat. exists (pi_cands i'). split; [apply in_map; exact Hi'|].
+        unfold pi_cands. apply in_or_app. right. exact Hz'.
+      * apply in_concat. exists (pi_cands i'). split; [apply in_map; apply (in_combine_l _ _ _ _ Hip')|].
+        unfold pi_cands. apply in_or_app. left. apply in_map_iff. exists (c, v'). split; [reflexivity|exact Hv'].
+  - intros Hc0. apply in_concat in Hc0. destruct Hc0 as (l & Hl & Hcl).
+    apply in_map_iff in Hl. destruct Hl as (i & <- & Hi). unfold pi_cands in Hcl |- *.
+    apply in_app_or in Hcl. apply in_or_app. destruct Hcl as [Hk|Hz].
+    + apply in_map_iff in Hk. destruct Hk as ([c' v] & <- & Hv). cbn [fst].
+      destruct (in_combine_ex _ _ is props i Hlen Hi) as (p & Hip).
+      assert (H0 : 0 <= p).
+      { rewrite Forall_forall in Hnn. apply Hnn. apply (in_combine_r _ _ _ _ Hip). }
+      destruct (Qlt_le_dec 0 p) as [Hp|Hp].
+      * left. destruct (C1 i p c' v Hip Hv Hp) as (w & Hw & _).
+        apply in_map_iff. exists (c', w). split; [reflexivity|exact Hw].
+      * right. apply (C3 i p c' v Hip Hv). lra.
+    + right. apply (C4 i c Hi Hz).
+Qed.
+
+(* name_PlackettLuce: the ballot drawn from the combined interval is a complete ranking of all the
+   candidates of the combined intervals, zero-support candidates only as the final tied group *)
+Theorem name_pl_combined_complete : forall (is : list pinterval) (props : list Q) r d b calls,
+  Forall wf_interval is -> length is = length props -> Forall (fun p => 0 <= p) props ->
+  NoDup (concat (map pi_cands is)) -> rounds_to_one (qsum props) = true ->
+  combine_intervals is props = inl r ->
+  pl_ballot r (length (pi_cands r)) d = inl (b, calls) ->
+  NoDup (flat pcand (rk b)) /\
+  Permutation (flat pcand (rk b)) (concat (map pi_cands is)) /\
+  exists order tail,
+    rk b = singletons pcand order ++ (match tail with [] => [] | _ => [tail] end) /\
+    Permutation order (map fst (pi_int r)) /\ Permutation tail (pi_zero r).
+Proof.
+  intros is props r d b calls Hwf Hlen Hnn Hnd Hr Hc H.
+  destruct (combine_cands is props r Hwf Hlen Hnn Hnd Hr Hc) as (_ & Hndr & HP).
+  destruct (pl_complete r d b calls Hndr H) as (order & tail & E & P1 & P2 & P3).
+  split; [apply (Permutation_NoDup (Permutation_sym P3) Hndr)|].
+  split; [apply (Permutation_trans P3 HP)|].
+  exists order, tail. split; [exact E|]. split; assumption.
 Qed.
